@@ -46,3 +46,55 @@ pub fn panic_class(msg: &str) -> String {
 pub fn walltime_deadline(secs: f64) -> f64 {
     crate::clock::wall_s() + secs
 }
+
+// ---------------------------------------------------------------------------------------------
+// Watchdog: an execution that never returns (deadlock after an injected fault, ...) must become a
+// reported violation instead of a check that hangs.
+
+use std::sync::Mutex;
+
+pub struct Watch {
+    pub deadline: f64,
+    pub property: String,
+    pub class: String,
+    pub config: String,
+    pub history: Vec<String>,
+}
+
+static WATCH: Mutex<Option<Watch>> = Mutex::new(None);
+static OUT_PATH: Mutex<Option<String>> = Mutex::new(None);
+
+pub fn watchdog_start(out_path: &str) {
+    *OUT_PATH.lock().unwrap() = Some(out_path.to_string());
+    std::thread::spawn(|| loop {
+        std::thread::sleep(std::time::Duration::from_millis(200));
+        let expired = {
+            let g = WATCH.lock().unwrap();
+            match g.as_ref() {
+                Some(w) if crate::clock::wall_s() > w.deadline => Some(serde_json::json!({
+                    "evaluations": 1, "transitions": 1, "pruned": 0, "vt_compares": 0, "caps_hit": [], "samples": [],
+                    "class_counts": {w.class.clone(): 1},
+                    "witnesses": [{"property": w.property, "class": w.class, "config": w.config, "history": w.history, "detail": "the call did not return within the watchdog limit (all other results of this shard are lost)"}],
+                    "machinery_errors": [], "extra": {}, "notes": ["a shard was ended by the watchdog: its other counts are missing from the totals"], "max_depth": 0,
+                    "states": [], "nontrivial": [], "outcomes": []
+                })),
+                _ => None,
+            }
+        };
+        if let Some(js) = expired {
+            if let Some(p) = OUT_PATH.lock().unwrap().as_ref() {
+                let _ = std::fs::write(p, serde_json::to_vec(&js).unwrap());
+            }
+            std::process::exit(0);
+        }
+    });
+}
+
+/// Arm the watchdog for the execution about to start.
+pub fn watch(property: &str, class: &str, config: &str, history: Vec<String>, secs: f64) {
+    *WATCH.lock().unwrap() = Some(Watch { deadline: crate::clock::wall_s() + secs, property: property.into(), class: class.into(), config: config.into(), history });
+}
+
+pub fn unwatch() {
+    *WATCH.lock().unwrap() = None;
+}
